@@ -527,3 +527,36 @@ Theorem C18_v2_exceptions_are_code : forall ep,
 Proof. exact HT.v2_exceptions_code. Qed.
 Print Assumptions C18_v2_exceptions_are_code.
 End HandlerGlueC18v2.
+
+(* tie to the source, the RENDERERS: the JSON of every 200 answer of the handler model that carries a result or a reason
+   (RenderJson.json_of_body: status, the echoed query, result / reason, keys in wire order) is what the interpreter of
+   RenderJson.v builds from the (key, member) tables tools/gen_render.py reads from result_to_v2.cpp,
+   result_to_v2_accessibility.cpp and result_to_v2_summary.cpp AS THEY ARE NOW (gen/Render.v) *)
+Require Coq.Strings.String.
+Require TrV.Http TrV.RenderJson TrV.gen.Render.
+From TrV Require Proofs.RenderTie.
+Module RJ.
+  Import TrV.Http Coq.Strings.String TrV.RenderJson TrV.Proofs.RenderTie.
+  Theorem C18_json_bodies_are_code : forall d q,
+    (forall x, json_of_body false (resp_body (render d false q (ARoute (Ok x)))) = Some (code_route_answer_single (fst x) q)) /\
+    (forall x, json_of_body false (resp_body (render d false q (AAlt (Ok x)))) = Some (code_route_answer_alt (fst x) (snd x) q)) /\
+    (forall r, json_of_body false (resp_body (render d false q (ARoute (NoRouting r)))) = Some (code_noroute r q)) /\
+    (forall r, json_of_body false (resp_body (render d false q (AAlt (NoRouting r)))) = Some (code_noroute r q)) /\
+    (forall x, json_of_body false (resp_body (render d true q (ARoute (Ok x)))) = Some (code_summary_single d (fst x) q)) /\
+    (forall x, json_of_body false (resp_body (render d true q (AAlt (Ok x)))) = Some (code_summary_alt d (fst x) q)) /\
+    (forall r, json_of_body false (resp_body (render d true q (ARoute (NoRouting r)))) = Some (code_summary_noroute d q)) /\
+    (forall r, json_of_body false (resp_body (render d true q (AAlt (NoRouting r)))) = Some (code_summary_noroute d q)) /\
+    (forall x, json_of_body true (resp_body (render d false q (AAccess (Ok x)))) = Some (code_access_answer (fst x) (snd x) q)) /\
+    (forall r, json_of_body true (resp_body (render d false q (AAccess (NoRouting r)))) = Some (code_access_noroute r q)).
+  Proof. exact http_render_json. Qed.
+  Theorem C18_json_query_echo_is_code : forall q,
+    json_of_route_query q = render_query GR.gen_render_route_query q /\
+    json_of_route_query q = render_query GR.gen_render_summary_query q /\
+    json_of_access_query q = render_query GR.gen_render_access_query q /\
+    render_point GR.gen_render_route_point = Some json_of_point /\
+    render_point GR.gen_render_access_point = Some json_of_point /\
+    render_point GR.gen_render_summary_point = Some json_of_point.
+  Proof. intro q. exact (conj (route_query_tie q) (conj (summary_query_tie q) (conj (access_query_tie q) points_tie))). Qed.
+End RJ.
+Print Assumptions RJ.C18_json_bodies_are_code.
+Print Assumptions RJ.C18_json_query_echo_is_code.
